@@ -18,6 +18,8 @@ def jobs(tier):
         J('mutation-parents', dict(MODE=4, NN=3, NE=2, NS=2, NR=2, TP_HI=0, SP_HI=0),
           require_tags={'end': 1, 'accept': 1, 'parent-after-child': 1}),
         J('canonicalise-row-orders', dict(MODE=5)),
+        J('deduplicate-sites', dict(MODE=6, NR=2, NSITES=3), require_tags={'end': 1, 'merged': 1, 'unsorted': 1}),
+        J('squash-edges', dict(MODE=7, NR=3), require_tags={'end': 1, 'squashed': 1}),
         dict(name='kernel-comparators', harness='k_kernels.c', entry='main_kernel', defines=dict(KERNEL=5), timeout=600,
              require_tags={'end': 6}),
     ]
@@ -34,7 +36,7 @@ def jobs(tier):
 
 
 BOUNDS = {
-    'quick': 'comparator kernel: cmp_edge/site/mutation/mutation_canonical/migration/individual_canonical on three records with free 32-bit ids and free non-NaN binary64 keys (mutation times known or UNKNOWN per site): antisymmetric, transitive, zero only on equal keys; sort: 3 edges (parent/child enumerated over nodes with tied times, left symbolic, every edge_start), 2-3 sites x '
+    'quick': 'deduplicate_sites: 3 sites at symbolic positions (sorted or not) x 2 mutations; EdgeTable.squash: 3 edges of one parent, 2 children, symbolic coordinates; comparator kernel: cmp_edge/site/mutation/mutation_canonical/migration/individual_canonical on three records with free 32-bit ids and free non-NaN binary64 keys (mutation times known or UNKNOWN per site): antisymmetric, transitive, zero only on equal keys; sort: 3 edges (parent/child enumerated over nodes with tied times, left symbolic, every edge_start), 2-3 sites x '
              '2-3 mutations (positions and known times symbolic, duplicate positions, unknown times, mutation parents), 3 '
              'migrations (time/left symbolic, source/dest/node enumerated); every row tagged by 1-byte metadata. '
              'compute_mutation_parents: all 3-node 2-edge tree sequence classes x 2 sites x 2 mutations (site/node '
@@ -44,12 +46,12 @@ BOUNDS = {
              'individual / population row swaps',
     'thorough': 'plus 4 edges, 3 sites x 3 mutations, and 4-node 3-edge tree sequences (time-boxed)',
 }
-OUTSIDE = ['canonicalise beyond the one enumerated collection (other shapes, migrations, known mutation times, individual parents)', 'compute_mutation_times, deduplicate_sites',
+OUTSIDE = ['canonicalise beyond the one enumerated collection (other shapes, migrations, known mutation times, individual parents)', 'compute_mutation_times', 'deduplicate_sites beyond 3 sites / squash beyond 3 edges of one parent',
            'qsort orders among equal keys other than the stable one', 'individual sorting']
 ASSUMPTIONS = ['comparator kernel: the mutations of one site have all-known or all-unknown times (data-model rule; with mixed times cmp_mutation is not transitive - harness self-test MIXED_TIMES)', 'no NaN among node times, positions, left coordinates', 'qsort is modelled as a stable insertion sort (engine/shim.c)', 'documented key orders from TableCollection.sort docstring']
 MANIFEST = dict(
     text='Symbolic execution of the real table sorter and compute_mutation_parents with symbolic sort keys: output rows are a '
          'permutation of the input rows identified by metadata tags, in the documented key order, ids remapped, other tables '
-         'untouched, idempotent; mutation parents equal the nearest-mutation-above oracle on every small tree sequence class; canonicalise gives identical, loadable tables for every row order of one enumerated collection.',
+         'untouched, idempotent; mutation parents equal the nearest-mutation-above oracle on every small tree sequence class; canonicalise gives identical, loadable tables for every row order of one enumerated collection; deduplicate_sites keeps the first site per position and remaps mutations; squash preserves coverage per parent/child pair and leaves no abutting pieces.',
     note='Bounded row counts; qsort stub is stable; trusts clang IR, engine (native replay of sampled paths), z3.',
     technique='symbolic execution of LLVM IR + SMT (z3), bounded, differential against documented order / naive oracle')
